@@ -250,7 +250,17 @@ def main(chk):
             continue
         nk += 1
         st = dict((U(a.targets[0]).replace(' ', ''), U(a.value).replace(' ', '')) for a in ast.walk(g) if isinstance(a, ast.Assign) and isinstance(a.targets[0], ast.Subscript))
-        ok = all(st.get('grad[%d]' % i) in ('tmp*xij[%d]' % i, 'xij[%d]*tmp' % i) for i in range(3))
+        # one common factor (a local of any name) times the three components of xij
+        facs = set()
+        for i in range(3):
+            v_ = st.get('grad[%d]' % i) or ''
+            for pat in ('*xij[%d]' % i,):
+                if v_.endswith(pat):
+                    facs.add(v_[:-len(pat)])
+            if v_.startswith('xij[%d]*' % i):
+                facs.add(v_[len('xij[%d]*' % i):])
+        ok = len(facs) == 1 and all(st.get('grad[%d]' % i) in ('%s*xij[%d]' % (list(facs)[0], i), 'xij[%d]*%s' % (i, list(facs)[0])) for i in range(3)) and \
+            list(facs)[0].isidentifier()
         chk.decide(ok, 'renaming-justified', 'gradient-is-radial:' + kc.name, node=g, file='pysph/base/kernels.py', func=kc.name + '.gradient',
                    detail_bad='gradient components are %s: not one scalar times xij' % st, detail_ok='grad[k] = tmp * xij[k]')
     chk.floor('kernel gradient methods', nk, 10)
